@@ -405,8 +405,10 @@ class StmtMixin:
                 return self.container_models[s.get(it)["__kind__"]].for_loop(self, s, n, it)
             if isinstance(it, Ref) and s.get(it).get("__kind__") == "glist":
                 return self.hooks.glist_for(self, s, n, it)
-            items = self.iter_items(it, s)
-            return self.unroll(n, items, 0, s)
+            out = []
+            for s_split in self.split_presence(it, s):
+                out.extend(self.unroll(n, self.iter_items(it, s_split), 0, s_split))
+            return out
         return self.lift(self.ev(n.iter, st), f)
 
     def unroll(self, n, items, i, st):
@@ -430,6 +432,12 @@ class StmtMixin:
         key = (st.env.get("__func__"), "while", self.loop_ordinal(st, n))
         if key in self.loop_handlers:
             return self.loop_handlers[key](self, n, st)
+        # a loop that has no contract at its position may be a loop the check knows by its SHAPE (e.g. the same drain loop moved into a helper):
+        # a matcher inspects the loop and the current state and returns the contract to apply, or None
+        for matcher in getattr(self, "loop_matchers", ()):
+            h = matcher(self, n, st)
+            if h is not None:
+                return h(self, n, st)
         return self.while_unroll(n, st, self.unroll_bound)
 
     def while_unroll(self, n, st, budget):
